@@ -921,7 +921,71 @@ pub fn scen_multi(ctx: &Ctx) -> i32 {
     }
     let mut b = run_batch(ctx, seqs, |_| RunOpts { cmp_every: Some(0), cmp_end: true, ..Default::default() }, &["api", "oracle", "bytes", "open"], "multi");
     names_check(ctx, &mut b);
-    finish(ctx, "multi", &b, vec![])
+    // two witnesses of "one name, two states" (defect candidates, matched against known_findings.json)
+    let mut cands: Vec<String> = Vec::new();
+    for (key, what, res) in alias_witnesses(ctx) {
+        if std::env::var("ABYSS_DEBUG").is_ok() {
+            eprintln!("alias witness {} => {}", key, res);
+        }
+        if res == "two-states" {
+            let path = ctx.replays.join(format!("C11-oracle-{}.txt", key.replace(':', "-")));
+            let _ = std::fs::write(&path, format!("# property=C11 facet=oracle\n# {}\n", what));
+            cands.push(obj(&[("key", esc(&key)), ("detail", esc(&what)), ("replay", esc(&path.to_string_lossy()))]));
+        }
+    }
+    finish(ctx, "multi", &b, vec![("candidates", arr(&cands))])
+}
+
+/// C11 witnesses run against the real crate in a thread (a refusal may be a panic):
+/// (1) the same name opened as `u64` and as `vu64` (the C13 signature collision lets the second open
+///     through; the registry then holds two separate handles over the same three files);
+/// (2) the names `b` and `./b` of one key type (different registry keys, the same three files).
+/// Result per witness: "refused" (the second open fails), "aliased" (the second handle sees the update
+/// made through the first), "two-states" (it does not).
+pub fn alias_witnesses(ctx: &Ctx) -> Vec<(String, String, String)> {
+    use abyssiniandb::{DbXxx, DbXxxBase};
+    let mut out = Vec::new();
+    let d1 = fresh_dir(&ctx.scratch, "alias_u64_vu64");
+    let r1 = std::thread::spawn(move || {
+        let r = std::panic::catch_unwind(|| -> String {
+            let db = match abyssiniandb::open_file(&d1) { Ok(d) => d, Err(_) => return "refused".into() };
+            let mut a = match db.db_map_u64("w") { Ok(m) => m, Err(_) => return "refused".into() };
+            let _ = a.put(&7u64, b"x");
+            let _ = a.flush();
+            match db.db_map_vu64("w") {
+                Err(_) => "refused".into(),
+                Ok(b) => {
+                    let _ = a.put(&8u64, b"y");
+                    match b.len() { Ok(2) => "aliased".into(), _ => "two-states".into() }
+                }
+            }
+        });
+        r.unwrap_or_else(|_| "refused".into())
+    })
+    .join()
+    .unwrap_or_else(|_| "refused".into());
+    out.push(("C11:same-name-u64-vu64".to_string(), "db_map_u64(\"w\"), put + flush through it, then db_map_vu64(\"w\") is accepted; a further put through the first handle is not seen by the second (len() stays 1): two handles of one name with two states (both over w.htx/w.key/w.val)".to_string(), r1));
+    let d2 = fresh_dir(&ctx.scratch, "alias_dot_slash");
+    let r2 = std::thread::spawn(move || {
+        let r = std::panic::catch_unwind(|| -> String {
+            let db = match abyssiniandb::open_file(&d2) { Ok(d) => d, Err(_) => return "refused".into() };
+            let mut a = match db.db_map_string("b") { Ok(m) => m, Err(_) => return "refused".into() };
+            let _ = a.put("k", b"x");
+            let _ = a.flush();
+            match db.db_map_string("./b") {
+                Err(_) => "refused".into(),
+                Ok(b) => {
+                    let _ = a.put("k2", b"y");
+                    match b.len() { Ok(2) => "aliased".into(), _ => "two-states".into() }
+                }
+            }
+        });
+        r.unwrap_or_else(|_| "refused".into())
+    })
+    .join()
+    .unwrap_or_else(|_| "refused".into());
+    out.push(("C11:name-dot-slash".to_string(), "db_map_string(\"b\"), put + flush through it, then db_map_string(\"./b\") opens the same three files under another registry key; a further put through the first handle is not seen by the second (len() stays 1): two map names, one set of files, two states".to_string(), r2));
+    out
 }
 
 /// C11, file naming: maps whose names share prefixes / contain dots / differ only after a dot must each
